@@ -64,6 +64,23 @@ CLAIMED["C08"] = (
     "DESIGN.md section 6 C08",
 )
 
+CLAIMED["C35"] = (
+    "The real zero_rows/zero_columns, merge_matrices, stack_mat, stack_diag, slice_indices, slice_sparse_matrix, "
+    "cs{r,c}_matrix_from_sparse_blocks, cs{r,c}_matrix_from_dense_blocks, sparse_kronecker_product, rldecode and "
+    "rlencode (expand_index_pointers underneath) are executed on matrices / arrays whose stored VALUES are symbolic "
+    "reals (one symbol per structural position, explicit zeros included) for every sparsity pattern, format (csr/csc, "
+    "coo blocks), index set (arrays with repeats, boolean masks, int, numpy int) and count vector within the bound; "
+    "rlencode forks on the symbolic column equalities. z3 decides entry-wise equality with the equivalent dense numpy "
+    "operation on the same symbols (A[lines]=B, vstack/hstack, block_diag, A[ind], np.repeat, np.kron), plus "
+    "format / pattern bookkeeping; witnesses and counterexamples are replayed on real scipy matrices.",
+    "Floats as exact reals; patterns, formats and index sets are enumerated / seeded, not symbolic (shapes up to 3x3 "
+    "quick, 4x4 thorough; up to 3 blocks; count vectors up to length 4); the INPUT compressed storage is canonical "
+    "(sorted, duplicate-free) - unsorted inputs, sparse_dia_from_sparse_blocks, expand_indices_nd and "
+    "optimized_compressed_storage are outside; merge_matrices with increasing lines only.",
+    "symbolic execution of the sparse utilities on z3 terms vs dense numpy reference + SMT",
+    "DESIGN.md section 10.8 C35",
+)
+
 CLAIMED["C36"] = (
     "The real ArraySlicer (constructor variants, __matmul__, _slice_vector, _slice_matrix incl. the "
     "compressed-storage arithmetic, transpose, pending-operation dunders) is executed on symbolic "
@@ -453,7 +470,6 @@ NOT_APPLICABLE = {
     "C25": "Meshing pipeline (gmsh, structured splitting on concrete integer topology, np.unique/sort kernels); geometry is concrete once meshed.",
     "C26": "Mortar projections are built from a complete fractured md-grid (C25 pipeline) and grid replacement; the symbolic overlap arithmetic is covered by C33, the rest is bookkeeping on concrete sparse matrices.",
     "C29": "split_intersecting_segments_2d chains bounding-box sweeps, uniquify, sparse graph bookkeeping on arrays whose lengths depend on the data; path count and proxy surface are out of reach (kernel segments_2d is covered by C28).",
-    "C35": "Index-array utilities run in compiled numpy kernels on integers; symbolic integers are concretised at the first call, leaving enumeration.",
     "C38": "Export/import goes through meshio/VTK file I/O; nothing symbolic survives the file boundary.",
     "C39": "Input space is a finite labelling of faces consumed by numpy fancy indexing; a symbolic label is concretised immediately - exhaustive testing, not solving.",
     "C44": "Clipping is implemented with shapely/GEOS and the polygon-intersection pipeline (compiled, concrete-only).",
